@@ -52,6 +52,26 @@ func shapeKeys(from int) [][]byte {
 	return keys
 }
 
+// wideKeys is a fan-out universe: 16 keys that differ in the nibble at one position (all sixteen values), every other
+// nibble 0 (position 1: below a common first nibble 3): one branch with up to sixteen children, at the root, one level
+// down, or at the very end of the key.  Rank order = byte order.
+func wideKeys(pos int) [][]byte {
+	var keys [][]byte
+	for i := 0; i < 16; i++ {
+		nib := make([]byte, 64)
+		if pos == 1 {
+			nib[0] = 3
+		}
+		nib[pos] = byte(i)
+		k := make([]byte, 32)
+		for j := range k {
+			k[j] = nib[2*j]<<4 | nib[2*j+1]
+		}
+		keys = append(keys, k)
+	}
+	return keys
+}
+
 // UniverseKeys returns the keys a history's indexes refer to.
 func UniverseKeys(uni string, sub []int) [][]byte {
 	var all [][]byte
@@ -60,6 +80,12 @@ func UniverseKeys(uni string, sub []int) [][]byte {
 		all = shapeKeys(0)
 	case "tail":
 		all = shapeKeys(60)
+	case "wideh":
+		all = wideKeys(0)
+	case "widem":
+		all = wideKeys(1)
+	case "widet":
+		all = wideKeys(63)
 	default:
 		all = WKeys
 	}
@@ -75,13 +101,31 @@ func UniverseKeys(uni string, sub []int) [][]byte {
 
 // PickUniverse draws a universe and a sorted selection of n of its keys.
 func PickUniverse(r *rand.Rand, n int) (string, []int) {
-	switch r.Intn(3) {
-	case 0:
+	switch r.Intn(8) {
+	case 0, 1:
 		return "w", nil
-	case 1:
+	case 2, 3:
 		return "head", pickSub(r, n)
+	case 4, 5:
+		return "tail", pickSub(r, n)
+	case 6:
+		// fan-out universes: biased towards the high nibbles (the last children of a branch)
+		sub := pickSub(r, n)
+		for _, v := range []int{15, 14} {
+			has := false
+			for _, x := range sub {
+				has = has || x == v
+			}
+			for i := len(sub) - 1; i >= 0 && !has; i-- {
+				if sub[i] != 14 && sub[i] != 15 {
+					sub[i], has = v, true
+				}
+			}
+			sort.Ints(sub)
+		}
+		return []string{"wideh", "widem", "widet"}[r.Intn(3)], sub
 	}
-	return "tail", pickSub(r, n)
+	return []string{"wideh", "widem", "widet"}[r.Intn(3)], pickSub(r, n)
 }
 
 // SubFor is a deterministic selection of n keys of a shape universe.
